@@ -65,6 +65,12 @@ CHECKS = {
 "C20": ("exploration", "deterministic simulation: generated endpoint/user configurations x seeded ActivateSession histories including malformed ciphertexts and replays after nonce rotation; configuration oracle",
         "Oracle (one direction): ActivateSession Good => the configured condition for that token kind holds for the session's current nonce; a token encrypted for an earlier nonce is never accepted.",
         "User-name and anonymous tokens over None and secured channels (RSA 2048); X.509 user tokens are not generated.", "7/C20"),
+"C30": ("exploration", "deterministic simulation: seeded Browse/BrowseNext/release/reuse histories interleaved with address-space modifications from 1-2 sessions; paged-equals-unpaged and continuation-point lifecycle oracle",
+        "Oracle: concatenated pages == unpaged Browse in the same state; a point works once; invalid after release or any structural change; at most 20 points per session stay valid (dedicated overflow runs).",
+        "Nodes have fewer than 255 references; wall clock strictly increasing so last_modified timestamps never tie.", "7/C30"),
+"C32": ("exploration", "deterministic simulation: seeded Read/Write histories (types, index ranges, attribute ids) from two sessions while an application actor flips access levels; register reference model",
+        "Oracle: Good write => user access level allows it and type compatible; Good write observed by next Read (ranges modelled for 1-D arrays, ASCII strings, byte strings); rejected write changes nothing; every request returns a status, no panic.",
+        "Non-ASCII strings and multi-dimensional ranges: only no-panic and unchanged-on-reject.", "7/C32"),
 }
 
 def main():
